@@ -189,10 +189,12 @@ fn check(c: &Case, ctx: &Ctx) -> Outcome {
                         .collect();
                     must_ok(&build(ctx, &dir, "new", &news, k, rc, 1), "ska build (new samples)")?;
                     let (_d, tn) = model_table(&news, k, rc);
-                    let args: Vec<&str> = if *first { vec!["merge", "new.skf", "cur.skf", "-o", "tmp"] } else { vec!["merge", "cur.skf", "new.skf", "-o", "tmp"] };
+                    // output prefix with a dot of its own in every other merge
+                    let prefix = if oi % 2 == 0 { "tmp.1" } else { "tmp" };
+                    let args: Vec<&str> = if *first { vec!["merge", "new.skf", "cur.skf", "-o", prefix] } else { vec!["merge", "cur.skf", "new.skf", "-o", prefix] };
                     trace.push(format!("{} new={}", args.join(" "), show_samples(&news)));
                     must_ok(&run_ska(ctx, &dir, &args), "ska merge")?;
-                    std::fs::rename(dir.join("tmp.skf"), dir.join("cur.skf")).map_err(|e| Outcome::Infra(e.to_string()))?;
+                    std::fs::rename(dir.join(format!("{prefix}.skf")), dir.join("cur.skf")).map_err(|e| Outcome::Fail(format!("merge -o {prefix} did not write {prefix}.skf: {e}")))?;
                     t = if *first { tn.merge(&t) } else { t.merge(&tn) };
                     kinds.push("merge");
                     interesting = true;
@@ -211,7 +213,7 @@ fn check(c: &Case, ctx: &Ctx) -> Outcome {
                     let names: Vec<String> = del.iter().map(|i| t.names[*i].clone()).collect();
                     let mut args: Vec<String> = vec!["delete".into(), "-s".into(), "cur.skf".into()];
                     if *names_file {
-                        std::fs::write(dir.join("names.txt"), names.join("\n") + "\n").unwrap();
+                        std::fs::write(dir.join("names.txt"), super::c08::names_file_text(&names, oi + n)).unwrap();
                         args.push("-f".into());
                         args.push("names.txt".into());
                     } else {
